@@ -54,7 +54,9 @@ static int process_data(xfrm_stream_t *stream, const void *in, sqfs_u32 in_size,
 	if (flush_mode < 0 || flush_mode >= XFRM_STREAM_FLUSH_COUNT)
 		flush_mode = XFRM_STREAM_FLUSH_NONE;
 
-	while (in_size > 0 && out_size > 0) {
+	while ((in_size > 0 || (bzip2->compress &&
+				flush_mode == XFRM_STREAM_FLUSH_FULL)) &&
+	       out_size > 0) {
 		bzip2->strm.next_in = (char *)in;
 		bzip2->strm.avail_in = in_size;
 
@@ -94,6 +96,9 @@ static int process_data(xfrm_stream_t *stream, const void *in, sqfs_u32 in_size,
 			bzip2->initialized = false;
 			return XFRM_STREAM_END;
 		}
+
+		if (in_size == 0 && diff == 0)
+			break;
 	}
 
 	return XFRM_STREAM_OK;
